@@ -1,5 +1,18 @@
 """registry: which units decide which property, and what each check does and does not decide"""
 
+# claimed in DESIGN.md but whose unit is not built yet: listed under not_applicable until it is
+NOT_YET = {
+    'C01': 'parser units (PCORE/GRAM) under construction; the lexer part is decided under C14',
+    'C02': 'SHORT unit under construction',
+    'C03': 'SEMA unit under construction',
+    'C05': 'GRAM unit under construction',
+    'C06': 'SEMA unit under construction',
+    'C08': 'SEMA unit under construction',
+    'C09': 'SEMA unit under construction',
+    'C12': 'PCORE/GRAM/SHORT units under construction',
+    'C13': 'SEMA unit under construction',
+}
+
 UNITS = ['types', 'sym', 'lex']
 
 PROPS = {
